@@ -6,6 +6,7 @@ import signal
 import numpy as np
 
 from harness.core import Machinery
+from checks import binding
 
 SQ2 = math.sqrt(2.0)
 QUICK_CFGS = ["MC_FlowGrid_2x2.cfg", "MC_FlowGrid_1x4.cfg", "MC_FlowGrid_4x1.cfg"]
@@ -43,8 +44,15 @@ class Watchdog:
         signal.signal(signal.SIGALRM, self.old)
 
 
-def make_grid(Grid, nr, nc, fd, dtype=np.int64):
+# realisations of the model's "invalid code" (3 in FlowGrid.tla): any int64 value outside the nine documented codes
+INVALID_CODES = [3, 2 ** 32 + 4, 2 ** 32, -2 ** 63, 2 ** 40 + 64, 7, 255, 2 ** 31, -4, 256 + 16, 2 ** 62, 2 ** 33 + 1]
+
+
+def make_grid(Grid, nr, nc, fd, dtype=np.int64, exotic=False):
     g = Grid("fd", nc, nr, dtype=dtype, nodata=-1)
+    if exotic:
+        h = sum((i + 1) * v for i, v in enumerate(fd))
+        fd = [INVALID_CODES[(h + 5 * i) % len(INVALID_CODES)] if v == 3 else v for i, v in enumerate(fd)]
     g.data = np.array(fd, dtype=dtype).reshape(nr, nc)
     return g
 
@@ -122,10 +130,10 @@ def replay_grid_c06(ctx, gridmod, c, stats):
     Grid, Catchment = gridmod.Grid, gridmod.Catchment
     nr, nc, fd = c["nr"], c["nc"], c["fd"]
     n = nr * nc
-    flow = make_grid(Grid, nr, nc, fd)
+    flow = make_grid(Grid, nr, nc, fd, exotic=True)
     f0 = flow.data.copy()
     cat = Catchment("c", flow)
-    case = {"nr": nr, "nc": nc, "fd": fd}
+    case = {"nr": nr, "nc": nc, "fd": fd, "fd_realised": [int(v) for v in flow.data.ravel()]}
     down = [int(v) for v in cat.downstream(np.arange(n))]
     if down != c["down"]:
         ctx.violation("downstream:codes", "downstream %s expected %s" % (down, c["down"]), case)
@@ -197,7 +205,7 @@ def replay_grid_c11(ctx, gridmod, c, stats):
     nr, nc, fd = c["nr"], c["nc"], c["fd"]
     n = nr * nc
     case = {"nr": nr, "nc": nc, "fd": fd}
-    shared_flow = make_grid(Grid, nr, nc, fd)       # the same flow-direction grid object serves all accumulations of this grid
+    shared_flow = make_grid(Grid, nr, nc, fd, exotic=True)       # the same flow-direction grid object serves all accumulations of this grid
     for k, kind in enumerate(FIELDS):
         w = field_of(kind, n)
         for default in ((True, False) if kind == "unit" else (False,)):
@@ -237,7 +245,7 @@ def spec_to_code(ctx, gridmod, cfgs, which):
     stats = {"areas": 0, "rivers": 0, "accs": 0, "cyclic": 0}
     total = 0
     for cfg in cfgs:
-        res = ctx.tlc("FlowGridDump", cfg, timeout=3000, heap="8g")
+        res = ctx.tlc("FlowGridDump", cfg, workers=16, timeout=3000, heap="8g")
         if res.violated:
             raise Machinery("FlowGrid.tla: model violates the contract on %s: %s" % (cfg, res.violated))
         n = 0
@@ -280,7 +288,7 @@ def code_to_spec(ctx, gridmod, ngrids, which, maxdim):
             fd = [int(rng.choice([1, 2, 4, 4, 2, 1, 0, 8])) for _ in range(n)]
         else:
             fd = [int(rng.choice(codes)) for _ in range(n)]
-        flow = make_grid(Grid, nr, nc, fd)
+        flow = make_grid(Grid, nr, nc, fd, exotic=(t % 2 == 0))
         f0 = flow.data.copy()
         rec = {"nr": nr, "nc": nc, "fd": fd, "areas": [], "rivers": [], "accs": [], "argsame": True}
         cat = Catchment("c", flow)
@@ -329,10 +337,11 @@ def code_to_spec(ctx, gridmod, ngrids, which, maxdim):
     with open(path, "w") as f:
         for r in recs:
             f.write(json.dumps(r) + "\n")
-    res = ctx.tlc("FlowGridTrace", "MC_FlowGridTrace.cfg", workers=1, timeout=3000, heap="6g", stack="512m",
+    res = ctx.tlc("FlowGridTrace", "MC_FlowGridTrace.cfg", timeout=3000, heap="6g", stack="512m",
                   env={"TRACE_FILE": str(path)})
     if not res.tuples("VALIDATED"):
         raise Machinery("FlowGridTrace did not complete:\n" + res.out[-2500:])
+    ctx.binding_demo("FlowGridTrace", "MC_FlowGridTrace.cfg", path, binding.flowgrid, timeout=3000, heap="6g", stack="512m")
     for line in res.tuples("REJECT"):
         parts = line.strip("<>").split(",")
         r = recs[int(parts[1]) - 1]
